@@ -102,7 +102,8 @@ def gen_script(rng, localraw, ifs, nops, focus):
             recs.append(arec(cand(local, m.k + 1), 1, "4:2"))
         if rng.random() < 0.15:
             recs[0] = "%s,16,0,120,n,-,-,0,0,0,_,." % hexs(name)       # same name, not an address record
-        lines.append("DELIVER 4:3232235777|5353|0|1|0||" + ";".join(recs))
+        echo = "%s,%d,0" % (hexs(name), rng.choice([1, 28, 255])) if rng.random() < 0.2 else ""     # a response may echo the question
+        lines.append("DELIVER 4:3232235777|5353|0|1|0|%s|%s" % (echo, ";".join(recs)))
         if kind == "cur" and not m.reg and ",16,0,120," not in recs[0]:
             m.k += 1
             if len(recs) > 1:
